@@ -87,6 +87,13 @@ Mat gen_matrix(unsigned n,int cls,double norm1,uint64_t seed){
     case 4:{ for(unsigned i=0;i<n;i++) A.m[i][i]=rnd(); break; }                                   // diagonal
     case 5:{ for(unsigned i=0;i<n;i++) for(unsigned j=i+1;j<n;j++) A.m[i][j]=rnd(); break; }       // nilpotent
     case 6:{ for(unsigned i=0;i<n;i++){ A.m[i][i]=rnd(); for(unsigned j=0;j<n;j++) if(i!=j) A.m[i][j]=rnd()*1e-9; } break; } // nearly diagonal
+    case 8:{ // i times a real symmetric matrix with zero row sums (graph Laplacian): A*(1,...,1) = 0, anti-Hermitian
+      for(unsigned i=0;i<n;i++) for(unsigned j=i+1;j<n;j++){ double w=r.chance(0.3)?0.0:r.uniform(0.1,1); A.m[i][j]=cplx(0,-w); A.m[j][i]=cplx(0,-w); }
+      for(unsigned i=0;i<n;i++){ cplx sm=0; for(unsigned j=0;j<n;j++) if(j!=i) sm+=A.m[i][j]; A.m[i][i]=-sm; }
+      break; }
+    case 9:{ // general complex matrix with zero row sums (non-normal, annihilates the all-ones vector)
+      for(unsigned i=0;i<n;i++){ cplx sm=0; for(unsigned j=0;j<n;j++) if(j!=i){ A.m[i][j]=rnd(); sm+=A.m[i][j]; } A.m[i][i]=-sm; }
+      break; }
     default:{ // Hermitian indefinite with small positive part
       for(unsigned i=0;i<n;i++){ A.m[i][i]=cplx(r.uniform(-1,0.3),0); for(unsigned j=i+1;j<n;j++){ cplx z=rnd(); A.m[i][j]=z; A.m[j][i]=std::conj(z); } } break; }
   }
@@ -151,12 +158,12 @@ struct ExpEngine: Engine{
       bool ut=r.chance(0.3);
       o["op"]=ut?(r.chance(0.35)?"utransform2":"utransform"):"exp";
       int n=(int)r.weighted({0,0,22,26,20,16,16}); o["n"]=n;
-      int cls=(int)r.weighted({24,12,12,18,6,8,6,14}); o["cls"]=cls;
+      int cls=(int)r.weighted({22,11,11,16,6,8,5,11,6,4}); o["cls"]=cls;
       // 1-norm: on both sides of every threshold, log-uniform otherwise
       double norm;
       if(r.chance(0.55)){ static const double f[]={0.5,0.9,0.99,1.01,1.1,2.0}; norm=THETA[r.below(5)]*f[r.below(6)]*(r.chance(0.3)?1.0:r.uniform(0.8,1.25)); }
       else norm=std::pow(10.0,r.uniform(-6,3));
-      double cap=(cls==0||cls==1||cls==2)?1e3:50.0; if(cls==7) cap=20.0; if(norm>cap) norm=cap*r.uniform(0.3,1.0);
+      double cap=(cls==0||cls==1||cls==2||cls==8)?1e3:50.0; if(cls==7) cap=20.0; if(norm>cap) norm=cap*r.uniform(0.3,1.0);
       if(r.chance(0.02)) norm=0.0;
       o["norm"]=norm; o["vs"]=(long long)r.below(100000000);
       o["bitseed"]=(long long)(r.next()>>2); o["bitmode"]=r.chance(0.3)?1:0; o["runmax"]=r.range(1,64);
@@ -181,7 +188,7 @@ struct ExpEngine: Engine{
       for(size_t i=0;i<ops.size()&&i<32&&out.ok;i++){
         const Json& o=ops[i];
         Call c; c.kind=o["op"].as_str()=="utransform"?1:(o["op"].as_str()=="utransform2"?2:0); c.n=(unsigned)std::max(2LL,std::min(6LL,o["n"].as_int(3)));
-        int cls=(int)(o["cls"].as_int(0)%8); double norm=o["norm"].as_num(1.0); if(!(norm>=0)) norm=1.0; if(norm>1e3) norm=1e3;
+        int cls=(int)(o["cls"].as_int(0)%10); double norm=o["norm"].as_num(1.0); if(!(norm>=0)) norm=1.0; if(norm>1e3) norm=1e3;
         c.bitseed=(uint64_t)o["bitseed"].as_int(1); c.bitmode=(int)(o["bitmode"].as_int(0)&1); c.runmax=(int)std::max(1LL,std::min(64LL,o["runmax"].as_int(8)));
         c.s=o["s"].as_num(1.0); if(!(std::fabs(c.s)<1e3)) c.s=1.0;
         uint64_t vs=(uint64_t)o["vs"].as_int(1);
